@@ -228,11 +228,11 @@ def oracle(case):
         t = float(np.median(np.concatenate([s.pos, s.neg])))
         if np.asarray(b.cm(t).matrix).tolist() != B.cm_oracle(list(b.pos), list(b.neg), b.nb_easy_pos, b.nb_easy_neg, sc, ec, t):
             return f"metrics of the sample do not equal direct counting {info}"
+        if (npos and len(b.pos) == 0) or (nneg and len(b.neg) == 0):
+            return f"sample lacks a scored positive / negative although the source has one {info}"
         if sm in ("replacement", "dynamic") and (sm == "replacement" or npos < 100 or nneg < 100 or smooth):
             if len(b.pos) + len(b.neg) + b.nb_easy_pos + b.nb_easy_neg != s.nb_all_samples:
                 return f"replacement sampling changed the total sample count: {len(b.pos)}+{len(b.neg)}+{b.nb_easy_pos}+{b.nb_easy_neg} != {s.nb_all_samples} {info}"
-            if (npos and len(b.pos) == 0) or (nneg and len(b.neg) == 0):
-                return f"sample lacks a scored positive / negative although the source has one {info}"
             if strat == "by_label" and (len(b.pos), len(b.neg), b.nb_easy_pos, b.nb_easy_neg) != (npos, nneg, ep, en):
                 return f"by_label stratification did not preserve the four strata {info}"
         if sm == "proportion":
